@@ -124,6 +124,10 @@ def rdf11_statements(r, g: genmod.Gen, n: int, arity: int) -> list:
     out, prev = [], None
 
     def bn():
+        if r.random() < 0.12:
+            lab = r.choice(g.prefixes) + r.choice(g.names)   # the string of an IRI of the same stream
+            if lab:
+                return gs.BlankNode(lab)
         return gs.BlankNode(r.choice([b for b in genmod.BNODES if b]))
 
     def iri():
@@ -146,7 +150,12 @@ def rdf11_statements(r, g: genmod.Gen, n: int, arity: int) -> list:
             elif i == 1:
                 cur.append(iri())
             elif i == 2:
-                cur.append(obj())
+                po = prev[2] if prev is not None else None
+                if isinstance(po, gs.Literal) and po._langtag is None and po._datatype in (None, genmod.XSD_STRING) and r.random() < 0.3:
+                    # the same lexical form in the other spelling (plain <-> xsd:string): two API terms, one wire form
+                    cur.append(gs.Literal(po._lex, datatype=None if po._datatype else genmod.XSD_STRING))
+                else:
+                    cur.append(obj())
             else:
                 k = r.random()
                 cur.append(gs.DefaultGraph if k < 0.3 else iri() if k < 0.8 else bn())
